@@ -52,6 +52,49 @@ impl Flav for Option<RefSlice<'static, AtomicBitmap>> {
     const NAME: &'static str = "some";
 }
 
+/// A `BitmapSlice` written against the public traits only: an `AtomicBitmap` view that, at every
+/// `mark_dirty`, snapshots the bytes of the container it is told were written.  Lets the oracle check
+/// the *order* of store and mark: a mark issued before the bytes landed shows the old bytes.
+#[derive(Clone, Debug)]
+pub struct ProbeSlice {
+    inner: RefSlice<'static, AtomicBitmap>,
+    base: usize,
+}
+thread_local! {
+    /// (root address, root size, bitmap offset of the root) of the container under test
+    pub static PROBE_ROOT: std::cell::Cell<(usize, usize, usize)> = const { std::cell::Cell::new((0, 0, 0)) };
+    /// (container offset, bytes found there when the mark was issued)
+    pub static PROBE_LOG: std::cell::RefCell<Vec<(usize, Vec<u8>)>> = const { std::cell::RefCell::new(Vec::new()) };
+}
+impl vm_memory::bitmap::WithBitmapSlice<'_> for ProbeSlice {
+    type S = Self;
+}
+impl BitmapSlice for ProbeSlice {}
+impl Bitmap for ProbeSlice {
+    fn mark_dirty(&self, offset: usize, len: usize) {
+        let (root, size, bmoff) = PROBE_ROOT.with(|r| r.get());
+        let o = self.base.wrapping_add(offset).wrapping_sub(bmoff);
+        if len > 0 && o <= size && len <= size - o {
+            let now = unsafe { std::slice::from_raw_parts((root + o) as *const u8, len) }.to_vec();
+            PROBE_LOG.with(|l| l.borrow_mut().push((o, now)));
+        }
+        self.inner.mark_dirty(offset, len)
+    }
+    fn dirty_at(&self, offset: usize) -> bool {
+        self.inner.dirty_at(offset)
+    }
+    fn slice_at(&self, offset: usize) -> Self {
+        ProbeSlice { inner: self.inner.slice_at(offset), base: self.base.wrapping_add(offset) }
+    }
+}
+impl Flav for ProbeSlice {
+    fn make(bm: &Arc<AtomicBitmap>, off: usize) -> Self {
+        ProbeSlice { inner: <RefSlice<'static, AtomicBitmap> as Flav>::make(bm, off), base: off }
+    }
+    const TRACKS: bool = true;
+    const NAME: &'static str = "probe";
+}
+
 pub fn verr(e: &VolatileMemoryError) -> String {
     match e {
         VolatileMemoryError::OutOfBounds { .. } => "err oob".into(),
@@ -308,6 +351,18 @@ impl<B: Flav> SliceWorld<B> {
 
     /// oracle after every op: frame (memory == mirror), canaries, dirty marks sound (C05) and precise (C16)
     fn post(&mut self, rec: &mut Rec, op: &str, line: &str) {
+        // C05 (ordering): when a mark was issued the marked bytes must already have held their final values,
+        // otherwise a harvest falling between the mark and the store would leave a changed page clean.
+        // (memmove-style copies within the container may legitimately overwrite their own source; skipped.)
+        let log = PROBE_LOG.with(|l| std::mem::take(&mut *l.borrow_mut()));
+        if !matches!(op, "s.cts" | "s.acts") {
+            for (o, then) in log {
+                if o + then.len() <= self.size && self.mem()[o..o + then.len()] != then[..] {
+                    rec.fail("C05", &format!("{}/marked-before-written", op), &format!("{} window=({},{})", line, o, then.len()));
+                    break;
+                }
+            }
+        }
         let all = unsafe { std::slice::from_raw_parts(self.alloc, self.alloc_len) };
         let lo = self.root - self.alloc as usize;
         if all[..lo].iter().chain(all[lo + self.size..].iter()).any(|&b| b != CANARY) {
@@ -440,6 +495,8 @@ impl<B: Flav> SliceWorld<B> {
         let dummy = Arc::new(AtomicBitmap::new(0, NonZeroUsize::new(1).unwrap()));
         let b = B::make(self.bm.as_ref().unwrap_or(&dummy), self.bmoff);
         let root = unsafe { VolatileSlice::with_bitmap(self.root as *mut u8, self.size, b, None) };
+        PROBE_ROOT.with(|r| r.set((self.root, self.size, self.bmoff)));
+        PROBE_LOG.with(|l| l.borrow_mut().clear());
         self.acc.insert(0, Acc::Sl(root));
         format!("ok {}", self.state())
     }
@@ -874,6 +931,9 @@ impl<B: Flav> SliceWorld<B> {
                 }
                 let before = self.mem().to_vec();
                 let exact = op == "s.revf";
+                // C13: the corresponding std::io operation on a twin stream with an ordinary buffer of the same length
+                let win = if addr <= plen { if exact { count } else { (plen - addr).min(count) } } else { 0 };
+                let twin = if addr <= plen && (!exact || addr.saturating_add(count) <= plen) { self.streams.rds.get_mut(&id).and_then(|r| r.std_twin(win, exact)) } else { None };
                 let RdRes { res, consumed, left, failed_fd } = self.streams.read_into(id, |src| {
                     if exact { s.read_exact_volatile_from(addr, src, count).map(|_| count) } else { s.read_volatile_from(addr, src, count) }.map_err(|e| verr(&e))
                 });
@@ -899,6 +959,16 @@ impl<B: Flav> SliceWorld<B> {
                         }
                     }
                     let _ = before;
+                }
+                if let Some(t) = &twin {
+                    rec.note("std_twin_reads");
+                    let same = match &res {
+                        Ok(n) => t.ok && (exact || *n == t.n) && consumed == t.bytes,
+                        Err(e) => !t.ok && e.contains(&format!("io k={}", t.err_kind)),
+                    };
+                    if !same {
+                        rec.fail("C13", &format!("{}/differs-from-std", op), &format!("{} crate={:?} consumed={} std_ok={} std_n={} std_kind={}", line, res, consumed.len(), t.ok, t.n, t.err_kind));
+                    }
                 }
                 match &res {
                     Ok(n) => {
@@ -926,6 +996,11 @@ impl<B: Flav> SliceWorld<B> {
                     return "bad-id".into();
                 }
                 let exact = op == "s.wavt";
+                let wtwin = if addr <= plen && (!exact || addr.saturating_add(count) <= plen) {
+                    let w = if exact { count } else { (plen - addr).min(count) };
+                    let src = self.mirror[po + addr..po + addr + w].to_vec();
+                    self.streams.wrs.get_mut(&id).and_then(|x| x.std_twin(&src, exact))
+                } else { None };
                 let (res, delivered) = self.streams.write_from(id, |dst| {
                     if exact { s.write_all_volatile_to(addr, dst, count).map(|_| count) } else { s.write_volatile_to(addr, dst, count) }.map_err(|e| verr(&e))
                 });
@@ -950,6 +1025,17 @@ impl<B: Flav> SliceWorld<B> {
                     }
                 }
                 let (sink, pos) = self.streams.sink_state(id);
+                if let Some((tok, tn, tsink, tkind)) = &wtwin {
+                    rec.note("std_twin_writes");
+                    let same = match &res {
+                        Ok(n) => *tok && (exact || n == tn) && sink == *tsink,
+                        // after a failed write_all the sink contents are compared too (std writes the prefix as well)
+                        Err(e) => !*tok && e.contains(&format!("io k={}", tkind)) && sink == *tsink,
+                    };
+                    if !same {
+                        rec.fail("C13", &format!("{}/differs-from-std", op), &format!("{} crate={:?} std_ok={} std_n={} std_kind={}", line, res, tok, tn, tkind));
+                    }
+                }
                 match res {
                     Ok(n) => if exact { format!("ok {} sink={} pos={}", self.state(), hex(&sink), pos) } else { format!("ok n={} {} sink={} pos={}", n, self.state(), hex(&sink), pos) },
                     Err(e) => format!("{} {} sink={} pos={}", e, self.state(), hex(&sink), pos),
